@@ -81,8 +81,8 @@ Proof. exact dinuc_region_err. Qed.
 Print Assumptions c02_dinuc_region_fails_only_by_guards.
 
 (* ---- the hypotheses are satisfiable and the conclusions not vacuous.
-   s = ACGAG ... : X = "ACAGAT" (A=0 C=1 G=2 T=3), region [0,6); A has successor slots
-   [1;3;5]; the draw [1;0] for A swaps its first two: output "AGACAT" *)
+   X = "ACAGAT" (A=0 C=1 G=2 T=3), region [0,6); A has successor slots [1;3;5]; the draw [1;0]
+   for A swaps its first two: output "AGACAT".  shuffle on [1, 5) with the draw [2;0;1;3]. *)
 Definition ex_seq : list nat := [0;1;0;2;0;3].
 Definition ex_X : tensor := T 4 6 [map (onehot 4) ex_seq].
 Definition ex_sig : list (list (list (list nat))) := [[ [[1;0]; []; []; []] ]].
